@@ -36,14 +36,27 @@ def build(rng, facts, name):
         b.emit("kstats " + r, stats_oracle(list(b.vals[r]), nscale[r], nmerge[r]))
         b.emit("kobs " + r, lambda a, env, vs=list(b.vals[r]): None if (("empty=1" in a.split(" pos[")[0]) == (sum(w for _, w in vs) == 0)) else "emptiness %r does not match absorbed weight %s" % (a.split(" pos[")[0], sum(w for _, w in vs)))
     twin_ok = True
+    # one history in twelve only absorbs magnitudes the mapping cannot index (they go to the zero bucket), all of one sign: the plain sketch
+    # answers 0 to every quantile, the exact variant must answer inside [min, max], which does not contain 0
+    tiny = rng.random() < 0.08; tsign = rng.choice((1, -1))
+    tinies = [x for x in (5e-324, 1e-320, f["min"] / 2, f["min"], f["min"] * 0.75) if x > 0]
+    def one_value():
+        return tsign * rng.choice(tinies) if tiny else rand_values(rng, 1, -3, 3)[0]
     for _ in range(rng.randint(4, 30)):
-        op = rng.choice(["add"] * 8 + ["addw"] * 4 + ["add0", "bad", "merge", "copy", "clear", "rew", "codec", "decinto", "check", "check"])
+        op = rng.choice(["add"] * 8 + ["addw"] * 4 + ["add0", "bad", "merge", "copy", "clear", "rew", "codec", "decinto", "check", "check", "chmap"])
         r = rng.choice(regs)
-        if op == "add":
-            v = rand_values(rng, 1, -3, 3)[0]; b.kadd(r, v)
+        if op == "chmap" and not tiny:
+            # a unit change (ChangeMapping with a dyadic scale, onto any mapping): the bins are split in floating point, the statistics stay exact
+            sp2 = rng.choice(sorted(facts)); sc = rng.choice([1.0, 2.0, 0.5, 1.0, 8.0]); vs = [(v * sc, w) for v, w in b.vals[r]]
+            b.emit("kchmap cm %s %s %s %s %s" % (r, sp2, rng.choice(["sparse", "pag", "dense"]), rng.choice(["sparse", "pag"]), f2h(sc)), "ok")
+            b.emit("kstats cm", stats_oracle(vs, nscale[r] + 1, nmerge[r]))
+            b.emit("kstats " + r, stats_oracle(list(b.vals[r]), nscale[r], nmerge[r]))
+        elif op == "chmap": pass
+        elif op == "add":
+            v = one_value(); b.kadd(r, v)
             if r == "a" and twin_ok: b.kadd("p", v)
         elif op == "addw":
-            v = rand_values(rng, 1, -3, 3)[0]; w = rng.choice([2.0, 0.5, 0.25, 3.0, 1024.0, 0.125])
+            v = one_value(); w = rng.choice([2.0, 0.5, 0.25, 3.0, 1024.0, 0.125])
             b.kadd(r, v, w)
             if r == "a" and twin_ok: b.kadd("p", v, w)
         elif op == "add0":
